@@ -19,7 +19,7 @@ RULE = ("(a) exhaustive: every condition tree with <= N connectives (N=2 quick, 
         "3x4 world; (b) random queries over 1-4 variables of two related classes (Q.p -> P): self-joins, chained attributes, object "
         "equality joins, literals, predicates over two variables, conditions mentioning only a subset of the variables "
         "(free Cartesian completion), no condition at all, every selection subset and order, selected attribute "
-        "expressions; depth<=4; caching on (default) and off; set_of(...) and an([..], ...) spellings; (c) joins written as positional / keyword arguments of a predicate-form term whose class inherits a keyword-only field (Lk(From(links), x, y)). Non-trivial: the "
+        "expressions; depth<=4; caching on (default) and off; set_of(...) and an([..], ...) spellings; (c) joins written as positional / keyword arguments of a predicate-form term whose class inherits a keyword-only field (Lk(From(links), x, y)); (d) feature-interaction queries (eqlmon/ix.py): a parent, its flattened elements and a further variable, with nested an()/the() sub-queries, concatenate, for_all, predicates and membership atoms on top, evaluated twice. Non-trivial: the "
         "oracle result is neither empty nor the whole product; distinct by structural hash of (query, data, config).")
 LEVEL_TEXT = ("Reference-model monitoring at the API boundary: rows returned by the real evaluation are compared, by object "
               "identity, with the brute-force filter of the Cartesian product (set always; multiset when all variables "
@@ -135,7 +135,8 @@ def plan(tier, seed):
     nsh = 16
     return [{"n": n, "sub": i} for i in range(nsh)] + \
         [{"kind": "exh2", "size": SIZES[tier], "stride": nsh, "offset": i} for i in range(nsh)] + \
-        [{"kind": "posjoin", "n": 40 if tier == "quick" else 400, "sub": 300 + i} for i in range(nsh)]
+        [{"kind": "posjoin", "n": 40 if tier == "quick" else 400, "sub": 300 + i} for i in range(nsh)] + \
+        [{"kind": "ix", "n": 150 if tier == "quick" else 1500, "sub": 600 + i} for i in range(nsh)]
 
 
 def floors(tier):
@@ -143,10 +144,46 @@ def floors(tier):
             "cls:completion": 50, "cls:expr_selected": 10, "re:.*@Comparator\\.R\\.enter": 1000,
             "re:Variable@Comparator\\.L\\.enter": 100, "cache.check.hit": 200, "dedup.call": 500,
             "cls:nvars=3": 100, "cls:nvars=4": 50, "cls:exhaustive_two_variable_tree": 2000,
-            "cls:join_through_positional_term_arguments": 200, "cls:preceded_by_an_abandoned_evaluation": 2000}
+            "cls:join_through_positional_term_arguments": 200, "cls:preceded_by_an_abandoned_evaluation": 2000,
+            "cls:feature_interaction_query": 1500, "cls:ix:d_is_the_e": 60, "cls:ix:e_le_sub_an": 60, "cls:ix:exists_an": 60,
+            "cls:ix:d_in_conc_p": 100, "cls:ix:d_in_conc_esubs": 100, "cls:ix:d_in_conc_psubs": 60, "cls:ix:forall_subs": 60,
+            "cls:ix:forall_items_an": 60, "cls:ix:forall_subs_vs_d": 60, "cls:ix:pred_le": 100}
+
+
+def check_ix_case(case, ctx):
+    """feature-interaction query (eqlmon/ix.py): flatten + nested an()/the() + concatenate + for_all + predicates in one query"""
+    from collections import Counter
+    from .. import ix
+    c = case["ix"]
+    ctx.cls("cls:feature_interaction_query")
+    for t in ix.tags(c):
+        ctx.cls("cls:ix:" + t)
+    try:
+        gots, exp = ix.run(c, c["caching"], times=2)
+    except Exception as e:
+        import traceback
+        ctx.fail("EXC", f"ix: {type(e).__name__}: {e}\n{traceback.format_exc()[-600:]}")
+        return
+    n_all = sum(len(p["items"]) for p in c["world"]["parents"])
+    if 0 < len(set(exp)) and len(exp) < n_all * (6 if any(ix.uses_d(a) for a in c["atoms"]) else 1):
+        ctx.nontrivial()
+    for n, g in enumerate(gots):
+        same = Counter(g) == Counter(exp) if ix.all_selected(c) else set(g) == set(exp)
+        if not same:
+            kind = ("SET:" if set(g) != set(exp) else "MULTIPLICITY:") + ("missing" if set(exp) - set(g) else "") + ("+extra" if set(g) - set(exp) else "")
+            ctx.fail(kind, {"evaluation_no": n + 1, "query": {k: c[k] for k in ("c0", "c1", "atoms", "sel", "caching")},
+                            "missing": sorted(set(exp) - set(g))[:8], "extra": sorted(set(g) - set(exp))[:8],
+                            "n_expected": len(exp), "n_observed": len(g)})
+            break
+    ctx.sample({"feature_interaction": {k: c[k] for k in ("c0", "c1", "atoms", "sel")}, "expected_rows": len(exp), "observed_rows": len(gots[0])})
 
 
 def cases(spec, ctx):
+    if spec.get("kind") == "ix":
+        from .. import ix
+        for i in range(spec["n"]):
+            yield {"ix": ix.gen_case(ctx.rng(spec["sub"], i))}
+        return
     if spec.get("kind") == "posjoin":
         for i in range(spec["n"]):
             yield _posjoin_case(ctx.rng(spec["sub"], i))
@@ -191,6 +228,8 @@ def _run(case, world, caching, times=1):
 
 
 def check_case(case, ctx):
+    if "ix" in case:
+        return check_ix_case(case, ctx)
     if "posjoin" in case:
         return check_posjoin_case(case, ctx)
     world = D.build_world(case["world"])
@@ -236,7 +275,7 @@ def check_case(case, ctx):
 
 def classify(f, ctx):
     case = f["case"]
-    if "posjoin" in case:
+    if "posjoin" in case or "ix" in case:
         return None
     world = D.build_world(case["world"])
     exp = multi.expected(case, world)
